@@ -180,6 +180,23 @@ def mapping_region(case):
             and case["fmt"] in HINT)
 
 
+def inplace_region(case):
+    """the caller reuses ONE action list object and changes its content in place between calls, and 0/1 is (or was) among the
+    actions: `SafeLearner.predict` keeps a reference to the caller's list in `_prev_actions`, so `_prev_actions != actions`
+    compares the list with itself - the learner is offered the float-copy list made for an EARLIER content (stale actions), or
+    no float copies at all when 0/1 only appear later (open finding C15-F6 until fixes/C15-prev-actions-snapshot.diff is in)"""
+    if case.get("drop") != "inplace":
+        return False
+    has01, prev = False, None
+    for call in case["calls"]:
+        cur = [[freeze(dec(a)) for a in r["actions"]] for r in call]
+        has01 = has01 or any(a == 0 or a == 1 for row in cur for a in row if not isinstance(a, (tuple, str)))
+        if prev is not None and cur != prev and has01:
+            return True
+        prev = cur
+    return False
+
+
 def defect_class(case):
     """Region of a recorded defect of the pinned commit the case lies in (first match in the order the code reaches them)."""
     fmt, kw, layout, batch = case["fmt"], bool(case.get("kw")), case["layout"], bool(case.get("batch"))
@@ -187,6 +204,8 @@ def defect_class(case):
     first = case["calls"][0]
     r0 = first[0]
     K = len(r0["actions"])
+    if inplace_region(case):
+        return "inplace-actions"
     if mapping_region(case) and len(first) == 2:
         return "col-hint-kw-mapping"
     if batch and layout in ("row", "single") and fmt == "A" and not kw and len(first) >= 2:
@@ -266,6 +285,8 @@ def run_case(case):
                 ctx, act, rwd = ctxs[0], acts[0], 0.25
             rec = {"ctx": ctx, "actions": act, "np0": len(learner.predict_calls), "nl0": len(learner.learn_calls), "w": w, "b": bnow, "rwd_try": rwd}
             recs.append(rec)
+            owned0 = (enc(ctxs), enc(acts))      # the caller's contexts / action lists by value (phase 6: they are the caller's, not the library's)
+            rec["caller_data"] = lambda o=owned0, c=ctxs, a=acts: None if (enc(c), enc(a)) == o else (o, (enc(c), enc(a)))
             try:
                 out = safe.predict(ctx, act)
             except Exception as e:
@@ -317,8 +338,19 @@ def run_drop(case):
         ctxs = [Batch.List(c) if batch else c[0] for c in tpl_ctx]
         outs, marks, excs, lexcs = [None] * n, [None] * n, [None] * n, [None] * n
         learner.has_score_seen = None
+        inplace = case.get("drop") == "inplace"
+        owned = Batch.List([]) if batch else []          # in-place mode: the ONE list object of the caller, refilled before every call
         for ci in range(n):
-            if batch:
+            if inplace:
+                actions = owned
+                if batch and case.get("inplace_rows") and len(actions) == len(tpl_act[ci]):
+                    for r_, t_ in zip(actions, tpl_act[ci]):
+                        r_[:] = t_                       # the row lists are reused too
+                elif batch:
+                    actions[:] = [list(t_) for t_ in tpl_act[ci]]
+                else:
+                    actions[:] = tpl_act[ci][0]
+            elif batch:
                 actions = Batch.List(map(list, tpl_act[ci]))
             else:
                 actions = list(tpl_act[ci][0])
@@ -722,6 +754,15 @@ def variant():
         "mapping": ok({"seed": 1, "fmt": "dA", "kw": True, "kwmap": "proxy", "layout": "col", "batch": True,
                        "calls": [[row(s2, 0, one, 0), row(s2, 1, one, 1)]]}),
     }
+    # phase 6, not a switch of the four-switch model either: does `_prev_actions` keep a copy (fixes/C15-prev-actions-snapshot.diff) or a
+    # reference to the caller's list?  Decides which of the model's two caches (`runPrep` / `runPrepRef`) (A) compares in-place cases with
+    try:
+        pc = {"seed": 1, "fmt": "A", "kw": False, "layout": "single", "batch": False, "drop": "inplace",
+              "calls": [[row([{"i": 0}, {"i": 1}, {"i": 2}], 2, one + [{"i": 0}], 0)], [row([{"i": 3}, {"i": 4}], 1, one, 1)]]}
+        lr, rc = run_drop(pc)
+        fx["snapshot"] = not monitor(pc, lr, rc)
+    except Exception:
+        fx["snapshot"] = False
     _VARIANT[key] = fx
     return fx
 
@@ -761,6 +802,11 @@ def outcomes_differ(impl, model):
 
 def trace_by_value(arg):
     return [bool(arg["batch"]), [[strip(r["ctx"]), [strip(a) for a in r["actions"]]] for r in arg["rows"]]]
+
+
+def strip_value(v):
+    """the Lean driver's by-value output as c15_learners.enc writes it"""
+    return v
 
 
 def strip_container(v):
@@ -1063,6 +1109,56 @@ def gen_drop(rng):
     return case
 
 
+def gen_inplace(rng):
+    """phase 6: a caller that owns ONE action list object and refills it in place before every call (3-6 calls).  `none01`: no
+    0/1 ever (SafeLearner passes the caller's list through - always the current content); `same`: 0/1-containing content that
+    never changes; `change01`: 0/1-containing content that changes (region of C15-F6)"""
+    case = gen_drop(rng)
+    mode = rng.choice(["none01", "none01", "same", "change01", "change01"])
+    if mode != "change01":
+        k = 0
+        acts0 = None
+        for call in case["calls"]:
+            if mode == "none01":
+                acts = gen_actions(rng, rng.choice(["ints", "fltp", "str", "strpre", "tup3"]), rng.choice([2, 3, 4]))
+            else:
+                acts0 = acts0 or gen_actions(rng, rng.choice(["int01", "mixint", "bool", "fltmix"]), rng.choice([2, 3, 4]))
+                acts = acts0
+            for r in call:
+                r["actions"] = acts
+                r["pick"] = rng.below(len(acts))
+                r["pmf"] = gen_pmf(rng, len(acts), "dyadic")
+                if mode == "same":
+                    r["ctx"] = {"i": 700 + k}
+                k += 1
+    case["drop"] = "inplace"
+    if case.get("batch") and rng.chance(0.35):
+        case["batch"], case["layout"] = False, "single"          # an unbatched caller: one row per call
+        case["calls"] = [c[:1] for c in case["calls"]]
+        for k_ in ("learn_batch", "score_batch"):
+            case.pop(k_, None)
+    if case.get("batch") and rng.chance(0.5):
+        case["inplace_rows"] = True
+    return case
+
+
+def gen_reuse(rng):
+    """phase 6: a learner that owns its answer data - the kwargs mapping / PMF list of a row are built once and the SAME objects
+    are returned whenever that row comes again; histories of 3-6 calls in which earlier calls come back (a b a, a b b a ...)"""
+    case = gen_case(rng)
+    for _ in range(3):
+        if case.get("kw") or case["fmt"] in ("PM", "dPM"):
+            break
+        case = gen_case(rng)          # prefer learners that own something: a kwargs mapping or a PMF list
+    case.pop("batches", None)
+    calls = case["calls"]
+    n = rng.choice([3, 4, 5, 6])
+    while len(calls) < n:
+        calls.append(json.loads(json.dumps(calls[rng.below(len(calls))])))
+    case["reuse_answers"] = True
+    return case
+
+
 def gen_rewrap(rng):
     """SafeLearner(SafeLearner(learner), seed2): two wrappers of one learner, their calls interleaved; each wrapper is used batched
     or unbatched on its own (an unbatched wrapper is given one-row calls)"""
@@ -1328,6 +1424,10 @@ class C15(Property):
             "'argument of type', missing/unexpected argument, unhashable, AttributeError incl. 'score', Index/Key/Value/ZeroDivision/Assertion/NotImplemented/RuntimeError) in predict, learn and score (50% of cases); "
             "PMF style `zeros` (zero-probability actions leading/interior/trailing) and, for half of the exact-sum PMF cases, a seed computed by inverting the LCG so that one row's uniform draw "
             "lands exactly on a boundary of its cumulative PMF (0.0 included); "
+            "phase 6 (aliasing): 5% of cases are a caller that owns ONE action list object and refills it in place before every call (3-6 calls; no 0/1 ever / "
+            "0/1 with unchanged content / 0/1 with changing content = region of open finding C15-F6; (B) + (A) against the model's reference-keeping or copying cache); "
+            "6% are learners that own their kwargs mapping / PMF list per row and return the SAME objects when a row comes again in a 3-6 call history; on every case the "
+            "caller's contexts / action lists and the learner-owned answer objects must be unchanged by value afterwards ((A): the model is purely functional); "
             "non-trivial = in-quantifier case for which the real code returned a result for every call, with >= 2 rows overall or a PMF draw; "
             "distinct by canonical JSON of the case")
     trusted_base = [
@@ -1359,7 +1459,12 @@ class C15(Property):
                         "(pyEq_dict_dupkeys_counterexample: the model's key/value lists admit a repeated key, then == is not symmetric) - that case is open; "
                         "for cached action sets cached_actions_equal needs no transitivity; nan objects = tokens `mkNan ref` outside the range of the generated floats (nan_encoding_faithful; floats below -2^40 and inf are refused by the encoder)",
                         "history_roundtrip": "full strength for every Fixes value; for the model's dict = abc.Mapping reading it mirrors the code only once "
-                        "fixes/C15-colhint-kwargs-mapping.diff (open finding C15-F5) is applied - until then (A) is skipped in that region"}
+                        "fixes/C15-colhint-kwargs-mapping.diff (open finding C15-F5) is applied - until then (A) is skipped in that region",
+                        "inplace_never_kept_partial / inplace_fresh_objects_partial": "the pinned `_prev_actions = actions` keeps a REFERENCE to the caller's list: the "
+                        "reference-keeping cache (runPrepRef) equals the value-based `prepare` of all other theorems only for callers that never pass the "
+                        "object currently kept (a fresh list per interaction is enough); inplace_stale_counterexample = open finding C15-F6 (a caller refilling "
+                        "its list in place is offered stale float copies); with fixes/C15-prev-actions-snapshot.diff the code IS runPrep (no hypothesis). "
+                        "(A) compares in-place callers with runPrepRef / runPrep according to a behavioural probe (variant()['snapshot'])"}
 
     # ---- translator part: constants of coba/safety.py re-extracted (ast) on every run -> Generated/C15Consts.lean; Props/C15.lean
     # proves they are the ones the model uses (`source_constants_match`), so an edited constant breaks a proof obligation
@@ -1430,10 +1535,18 @@ class C15(Property):
             return gen_mixed(rng)
         if rng.chance(0.06):
             return gen_drop(rng)
+        if rng.chance(0.05):
+            return gen_inplace(rng)
+        if rng.chance(0.06):
+            return gen_reuse(rng)
         return gen_case(rng)
 
     def search(self, rng, tier):
         # in-quantifier learners only ((B) is the only check the search runs), biased to the identity-sensitive combinations
+        if rng.chance(0.08):
+            return gen_inplace(rng)
+        if rng.chance(0.1):
+            return gen_reuse(rng)
         return gen_rewrap(rng) if rng.chance(0.15) else gen_drop(rng) if rng.chance(0.1) else gen_case(rng, stress=0.6)
 
     def corpus(self):
@@ -1444,7 +1557,10 @@ class C15(Property):
         if case.get("drop"):
             learner, recs = run_drop(case)
             out = self.evaluate_one(case, learner, recs, None)      # (B) only: the identities (A) needs are exactly what is dropped
-            out["tags"].append("drop")
+            out["tags"].append("drop" if case["drop"] != "inplace" else "inplace:%s/%s" % (
+                "batched" if case.get("batch") else "unbatched", "defect-region" if inplace_region(case) else "quiet-region"))
+            if case["drop"] == "inplace" and driver is not None:
+                self.correspond_inplace(driver, case, learner, recs, out)
             return out
         learner, recs = run_case(case)
         rw = case.get("rewrap")
@@ -1471,6 +1587,43 @@ class C15(Property):
             self.correspond_two(driver, case, learner, recs, fails)
         return {"fails": fails, "nontrivial": bool(outs) and all(o["nontrivial"] for o in outs), "tags": tags,
                 "impl": [o.get("impl") for o in outs], "model": None}
+
+    def correspond_inplace(self, driver, case, learner, recs, out):
+        """(A) for a caller that refills ONE list object in place: the action lists the real wrapper offers the learner, call after
+        call, against the model's cache - `runPrepRef` (reference kept: the pinned lines) or `runPrep` (copy kept: the repaired
+        lines), whichever the tree under test is - on the object history [0, 0, 0, ...]"""
+        fx = variant()
+        batch = bool(case.get("batch"))
+        refs = Refs()
+        try:
+            calls = []
+            for call in case["calls"]:
+                ctxs = [dec(r["ctx"]) for r in call]
+                acts = [[dec(a) for a in r["actions"]] for r in call]
+                calls.append(refs.arg(batch, ctxs if batch else ctxs[0], acts if batch else acts[0]))
+            ans = driver.ask({"fx": fx, "seed": 1, "calls": calls, "alias": [0] * len(calls)})["alias"]
+        except Unencodable:
+            out["tags"].append("unencodable")
+            return
+        which = "val" if fx.get("snapshot") else "ref"
+        out["tags"].append("inplace:A/%s/%s" % (which, "never-kept" if ans.get("never_kept") else "kept-object-passed"))
+        for ci, rec in enumerate(recs):
+            pcs = learner.predict_calls[rec["np0"]:rec["np1"]]
+            if not pcs or ci >= len(ans[which]):
+                break
+            b_, c_, a_ = pcs[0]          # a batch-style call is made with the whole `_safe_actions`; per-row calls (memo 2) with its rows in order
+            got = [[enc(x) for x in row] for row in (a_ if b_ else [p[2] for p in pcs if not p[0]])]
+            want = [[strip_value(x) for x in r["actions"]] for r in ans[which][ci]["rows"]]
+            if not b_:
+                want = want[:len(got)]   # a learner that raises on a stale row ends the per-row calls early
+            elif not ans.get("never_kept") and len(got) != len(want):
+                # a stale batch keeps its own number of rows; the driver prints an Arg as zip(contexts, rows): compare what it can show
+                got, want = got[:min(len(got), len(want))], want[:min(len(got), len(want))]
+            if got != want:
+                out["fails"].append(F("A", "%s caller refilling ONE list object in place: call %d: the learner was offered %s, the model's cache (%s) offers %s" % (
+                    "batched" if batch else "unbatched", ci, json.dumps(got)[:160], "runPrep" if which == "val" else "runPrepRef", json.dumps(want)[:160]),
+                    "A:inplace-offered:%s" % which))
+                break
 
     def correspond_two(self, driver, case, learner, recs, fails):
         """(A) for runTwo: the interleaved run of both wrappers on the learner's actual answers"""
@@ -1536,6 +1689,8 @@ class C15(Property):
                 fam = "later" if detail.startswith("later:") else FAMILY.get(detail, detail if detail.startswith("raises-") else "value")
                 if dclass == "col-hint-kw-mapping":
                     fam = "read-row-major"        # a two-row first batch is taken for two hinted rows: arbitrary symptoms
+                if dclass == "inplace-actions":
+                    fam = "stale-or-unsafe"       # the learner is offered an earlier content's float copies / no float copies: arbitrary symptoms
                 sig = "%s/%s" % (dclass, fam) if dclass != "general" else "general:%s/%s" % (name, detail.replace("later:", ""))
                 fails.append(F("B", what + "  [seed %s]" % case.get("seed"), sig))
             if not fails and case.get("e2e") and e2e_applicable(case):
@@ -1563,6 +1718,20 @@ class C15(Property):
                                 k, case["e2e_runs"], what, case.get("seed")), "general:%s/series-%s" % (name, detail)))
                         if fails:
                             break
+        # phase 6 (aliasing): the Lean model is purely functional - neither the caller's contexts / action lists nor the answer
+        # objects the learner owns (kwargs mapping, PMF list) can be changed by the wrapper; a change is a divergence from the model
+        if case.get("reuse_answers"):
+            tags.append("reuse-answers:%s/%s" % ("not" if not batch else layout, "pmf" if fmt in ("PM", "dPM") else "kw" if case.get("kw") else "none-owned"))
+        for what, snap, now in (learner.mutated() if hasattr(learner, "mutated") else []):
+            fails.append(F("A", "%s: the %s object the learner built and handed out was changed by the library: built %s, now %s" % (
+                name, what, json.dumps(snap)[:120], json.dumps(now)[:120]), "A:learner-data-mutated:%s/%s" % (name, what)))
+            break
+        for ci_, rec_ in enumerate(recs):
+            d_ = rec_["caller_data"]() if callable(rec_.get("caller_data")) else None
+            if d_ is not None:
+                fails.append(F("A", "%s: call %d: the caller's contexts / action lists were changed by the library: given %s, now %s" % (
+                    name, ci_, json.dumps(d_[0])[:140], json.dumps(d_[1])[:140]), "A:caller-data-mutated:%s" % name))
+                break
         model = None
         if driver is not None and mapping_region(case) and not variant().get("mapping"):
             tags.append("A-skipped:mapping-region")     # the model's dict = Mapping mirrors the repaired code only
@@ -1679,6 +1848,9 @@ class C15(Property):
                 fails.append(F("A", "pred_format(%s actions): implementation %s, model %s" % (how, json.dumps(real), json.dumps(mm)), "A:pred_format:" + how))
             elif fx.get("short") and tt != mm:
                 fails.append(F("C", "pred_format(%s actions): the decision tree read from the source gives %s, the model %s" % (how, json.dumps(tt), json.dumps(mm)), "C:pf-table"))
+        if ans.get("alias_fresh_ok") is False:
+            # (C) guard of inplace_fresh_objects_partial: a fresh list object per call - the reference-keeping cache = the value-based one
+            fails.append(F("C", "fresh list object per call: runPrepRef differs from runPrep on the calls of this case", "C:alias-fresh"))
         nc = ans.get("nan_check")
         if nc and nc.get("nans"):
             # (C) nan_encoding_faithful on the objects of this case; `side` = its hypothesis (numbers outside the token range,
@@ -1978,6 +2150,38 @@ def corpus_cases():
                         k += 1
                 cs.append({"seed": 2, "fmt": fmt, "kw": True, "layout": "single" if mode == "not" else mode, "batch": mode != "not",
                            "drop": True, "calls": calls})
+    # phase 6 (aliasing 1): the caller owns ONE action list object and refills it in place before every call.  Rounds without 0/1
+    # (the caller's list is passed through: always the current content), rounds with 0/1 that never change, and rounds with 0/1
+    # that change (region of C15-F6: `_prev_actions` is a reference to the caller's list)
+    in_rounds = {"none01": [[2, 3, 4], [5, 6], [7, 8, 9, 2], [3, 2]], "same": [[0, 1, 2]] * 4,
+                 "change01": [[0, 1, 2, 3], [1, 3], [7, 8, 1], [0, 9]], "late01": [[2, 3], [4, 5, 6], [0, 1], [1, 0, 2]]}
+    for nm, rds in sorted(in_rounds.items()):
+        for fmt in ("A", "AP", "PM", "dA", "dPM"):
+            for mode in ("not", "row", "single", "col"):
+                for rows_too in ((False,) if mode == "not" else (False, True)):
+                    calls = []
+                    for k, rd in enumerate(rds):
+                        acts = [{"i": v} for v in rd]
+                        n = 1 if mode == "not" else 2
+                        calls.append([row(acts, (k + i) % len(acts), 600 + 10 * k + i, pmf=[{"i": int(j == (k + i) % len(acts))} for j in range(len(acts))])
+                                      for i in range(n)])
+                    c = {"seed": 2, "fmt": fmt, "kw": fmt in ("A", "PM"), "layout": "single" if mode == "not" else mode, "batch": mode != "not",
+                         "drop": "inplace", "calls": calls}
+                    if rows_too:
+                        c["inplace_rows"] = True
+                    cs.append(c)
+    # phase 6 (aliasing 2): the learner owns its kwargs mapping / PMF list per row and returns the SAME objects when the row comes
+    # again: histories a b a a b (the third and fourth call get the objects of the first)
+    for fmt in FMTS:
+        for mode in ("not", "single", "row", "col"):
+            for kwmap in ("dict", "ordered", "subclass"):
+                n = 1 if mode == "not" else 2
+                ca = [row(sets["str"], (i + 1) % 3, i, pmf=[{"f": [1, 4]}, {"f": [1, 4]}, {"f": [1, 2]}],
+                          kw=[[{"s": "k"}, {"i": 5 + i}], [{"s": "note"}, {"l": [{"i": 1}, {"s": "x"}]}]]) for i in range(n)]
+                cb = [row(sets["int012"], i % 3, 50 + i, pmf=[{"f": [1, 2]}, {"f": [0, 1]}, {"f": [1, 2]}],
+                          kw=[[{"s": "k"}, {"i": 9 + i}], [{"s": "note"}, {"d": [[{"s": "q"}, {"i": 1}]]}]]) for i in range(n)]
+                cs.append({"seed": 4, "fmt": fmt, "kw": True, "kwmap": kwmap, "layout": "single" if mode == "not" else mode, "batch": mode != "not",
+                           "reuse_answers": True, "e2e": kwmap == "dict" and fmt in ("AP", "PM"), "calls": [ca, cb, ca, ca, cb]})
     # phase 3: score kinds (has_score / score error paths), one wrapper switched between batched and unbatched calls, nan actions
     kinds = ["absent", "base", ["raises", "AttributeError", "'Model' object has no attribute 'score'"],
              ["raises", "AttributeError", "'NoneType' object has no attribute 'score_table'"], ["raises", "KeyError", "score_cache"],
